@@ -7,6 +7,8 @@
 -/
 import Gnet.Model.Engine
 import Gnet.Proofs.Engine
+import Gnet.Proofs.StopOrder
+import Gnet.Gen.Facts
 namespace Gnet.Props.C06
 open Gnet.Engine
 
@@ -51,6 +53,36 @@ example : let s := run (init 2 true) [.accept 0, .accept 1, .traffic 1 1, .actio
       .stopper, .stopper, .stopper, .runSentinel 1, .closeOne 1, .loopExit 1, .tickerExit, .stopper, .stopper, .stopper]
     (s.inShutdown, s.stopPc, s.trace) =
       (true, StopPc.returned, [.open 0, .open 1, .traffic 1, .close 0, .shutdown, .close 1]) := by decide
+
+/-! ### The order of the statements of `engine.stop` / `Client.Stop` (tie: regenerated table `Facts.stopSites`)
+
+The theorems above are about a stopper that waits for the request, runs OnShutdown, posts the shutdown tasks, waits for
+the loops and the ticker, closes the pollers and listeners and only then sets the flag - in that order
+(`stopper_order`). The calls the two functions make, in source order, are extracted from the current tree on every
+run; `stop_order_followed` demands that they are exactly those statements in that order (nothing added, dropped or
+moved; logging left out). (Source order of calls, not a proof about Go control flow.) -/
+
+theorem stopper_order (s : State) (h0 : s.stopPc = .waitCtx) (hc : s.ctxCancelled = true) (he : allExited s = true) :
+    (List.range 7).map (StopOrder.pcAfter s) = StopOrder.order ++ [.returned] :=
+  Proofs.StopOrder.stopper_order s h0 hc he
+
+theorem stop_order_followed : StopOrder.followed Facts.stopSites = true := by decide +kernel
+
+-- the predicate is not trivially true: listeners closed right after OnShutdown (an extra call) are rejected
+example : StopOrder.followed
+    [("*engine.stop", ["Done", "OnShutdown", "close", "Trigger", "iterate", "Trigger", "Wait", "closeEventLoops", "Store"]),
+     ("*Client.Stop", ["shutdown", "OnShutdown", "Trigger", "iterate", "Wait", "closeEventLoops", "Store"])] = false := by
+  decide +kernel
+
+-- ... and so is the flag set before the loops have been waited for
+example : StopOrder.followed
+    [("*engine.stop", ["Done", "OnShutdown", "Trigger", "iterate", "Trigger", "Store", "Wait", "closeEventLoops"]),
+     ("*Client.Stop", ["shutdown", "OnShutdown", "Trigger", "iterate", "Wait", "closeEventLoops", "Store"])] = false := by
+  decide +kernel
+
+-- non-vacuity of `stopper_order`
+example : let s := run (init 0 false) [.requestStop]
+    s.stopPc = .waitCtx ∧ s.ctxCancelled = true ∧ allExited s = true := by decide
 
 end Gnet.Props.C06
 
